@@ -308,6 +308,8 @@ class Engine:
         #Use to indicate the engine will no longer run
         #Required to stop the detailedState observable from emitting state
         self._shutdown = False
+        #Makes shutdown() and the moment restart() brings the engine back to life mutually exclusive
+        self._shutdownLock = threading.Lock()
 
         self.taskGenerator = taskGenerator  # type: Callable[[experiment.model.data.Job, str, str], experiment.runtime.task.Task]
 
@@ -988,20 +990,26 @@ class Engine:
                              str(error))
 
         # Try to restart if context allows ...
-        if self._shutdown:
-            # VV: The engine was told that its component is in its final state while the restart was being prepared
-            #     (e.g. the stage was stopped during a slow restart hook): a new task would run without supervision
-            self.log.warning("Engine was shutdown while preparing to restart - will not restart")
-            restartCode = experiment.model.codes.restartCodes['RestartCouldNotInitiate']
-        elif restartContext in [experiment.model.codes.restartContexts["RestartContextRestartPossible"],
-                              experiment.model.codes.restartContexts["RestartContextHookNotAvailable"]]:
-            try:
+        canRestart = restartContext in [experiment.model.codes.restartContexts["RestartContextRestartPossible"],
+                                        experiment.model.codes.restartContexts["RestartContextHookNotAvailable"]]
+        with self._shutdownLock:
+            # VV: shutdown() either lands before this point (and there is no restart) or finds an engine that is alive
+            wasShutdown = self._shutdown
+            if canRestart and not wasShutdown:
                 #Reset ivars that determine isAlive (so the retval of isAlive is True)
                 self.process = None
                 self.lastExecution = True
                 self._taskFinished = None
                 self._taskLaunched = None
                 self._exitReason = None
+
+        if wasShutdown:
+            # VV: The engine was told that its component is in its final state while the restart was being prepared
+            #     (e.g. the stage was stopped during a slow restart hook): a new task would run without supervision
+            self.log.warning("Engine was shutdown while preparing to restart - will not restart")
+            restartCode = experiment.model.codes.restartCodes['RestartCouldNotInitiate']
+        elif canRestart:
+            try:
                 self.run()
                 restartCode = experiment.model.codes.restartCodes['RestartInitiated']
             except Exception as error:
@@ -1189,10 +1197,11 @@ class Engine:
         isActive would be a better name.
         '''
 
-        if self.isAlive():
-            raise AssertionError('An engine must be non-active (dead) to be shutdown')
-        self.log.debug("Engine asked to shutdown")
-        self._shutdown = True
+        with self._shutdownLock:
+            if self.isAlive():
+                raise AssertionError('An engine must be non-active (dead) to be shutdown')
+            self.log.debug("Engine asked to shutdown")
+            self._shutdown = True
 
         self.emit_now()
 
